@@ -67,6 +67,28 @@ def run(v, tier, seed, replay=None):
                 v.violation('C07:read', 'a read session delivers something else under schedule perturbation seed %d than the schedule-free model: %s | %s' % (sd, r['model'][:100], o[:100]),
                             {'file_hex': r['data'].hex()[:6000], 'seed': sd, 'model': r['model'][:500], 'implementation': o[:500]})
                 break
+    # read sessions over files with an unknown-type object that spans many small containers and whose payload is full of object
+    # images: the parser's skip over it runs ahead of the inflating worker under some schedules and must still land behind it
+    import struct
+    encs = [bytes.fromhex(e.split(' ')[2]) for e in codec.run_model(mexe, ['W ' + g.obj('CanMessage') for _ in range(3)]) if e.startswith('W ok ')]
+    span = []
+    for size, cs in ((20000, 512), (70000, 4096), (9000, 64)):
+        img = encs[0]
+        unk = struct.pack('<4sHHII', b'LOBJ', 16, 1, size, 0x7777) + (img * (size // len(img) + 1))[:size - 16]
+        stream = encs[1] + unk + encs[2] + encs[1]
+        span.append(filerun.file_of([filerun.wrap_container(stream[k:k + cs], 0) for k in range(0, len(stream), cs)]))
+    sl = ['FR ' + d.hex() for d in span]
+    sm = codec.run_model(mexe, sl)
+    for k in range(3 if tier == 'quick' else 10):
+        sd = seed * 100 + 70 + k
+        outs = sessrun.run_impl(sched if k else plain, sl, sd)
+        for d, m, o in zip(span, sm, outs):
+            if o != 'SKIPPED' and not filerun.fr_agree(m, o):
+                nbad += 1
+                v.violation('C07:read:span', 'a read session over an unknown object spanning many containers delivers something else %s than the schedule-free model: %s | %s' % (
+                    ('under schedule perturbation seed %d' % sd) if k else 'on the plain build', m[:100], o[:100]),
+                    {'file_hex': d.hex()[:6000], 'seed': sd, 'model': m[:500], 'implementation': o[:500]})
+                break
     if not ok and not v.violations:
         for fl in failed:
             v.violation('coq:' + fl['lemma'], 'proof obligation %s (%s:%d) no longer checks: %s' % (fl['lemma'], fl['file'], fl['line'], fl['error'][:200]),
